@@ -636,6 +636,7 @@ class OFXClient:
 
         return self.download(
             ofx,
+            version=version,
             newfileuid=newfileuid,
             dryrun=dryrun,
             timeout=timeout,
